@@ -125,6 +125,9 @@ def stats(c, r):
             'deadlock_end': 1 if 'end deadlock' in raw else 0}
 
 
+ORIG_REPLAY = [None]
+
+
 def _unwrap_replay():
     """A replay written by this check is JSON with the case text under 'case'; hand e1check a plain
     case file (build/ is scratch space)."""
@@ -136,6 +139,7 @@ def _unwrap_replay():
             except Exception:
                 return
             if isinstance(d, dict) and 'case' in d:
+                ORIG_REPLAY[0] = sys.argv[i + 1]    # the live tier wants the JSON itself
                 out = os.path.join(e1check.BUILD, 'replay_C07.case')
                 os.makedirs(e1check.BUILD, exist_ok=True)
                 with open(out, 'w') as f:
@@ -146,6 +150,8 @@ def _unwrap_replay():
 def live_tier(ctx):
     sys.path.insert(0, os.path.dirname(os.path.abspath(__file__)))
     import C07live
+    if ORIG_REPLAY[0]:
+        ctx = dict(ctx, replay=ORIG_REPLAY[0])
     return C07live.run(ctx)
 
 
